@@ -942,6 +942,12 @@ def _sum_of(E, fv, st, v, node, prog):
             fin = z3.ForAll([k], z3.Implies(z3.And(k >= 0, k < shp[0]), z3.And(z3.Not(z3.Select(nested_select(el["nan"], v.prefix), k)), z3.Not(z3.Select(nested_select(el["ninf"], v.prefix), k)))))
             fv.float_defined(st, fin, node, prog)
         return E.spec_app(fv, st, sd, [v, SInt(0), SInt(shp[0])])
+    if is_bool_dtype(o.dtype):
+        USED.add("np.sum on a 1-D boolean array == spec BCOUNT(a, 0, len) (number of True entries)")
+        sd = E.db.specs.get("BCOUNT")
+        if sd is None:
+            _err("spec BCOUNT missing")
+        return E.spec_app(fv, st, sd, [v, SInt(0), SInt(shp[0])])
     sd = E.db.specs.get("ISUM")
     if sd is None:
         _err("spec ISUM missing")
